@@ -148,4 +148,267 @@ theorem toSInt_neg (P : Rat) (h1 : 1 ≤ P) (h2 : P < 2147483648) : F.toSInt 32 
     exact_mod_cast this
   rw [if_pos ⟨by norm_num; omega, by norm_num; omega⟩]
 
+theorem normal_of_small (q : Rat) (h : (2 : Rat) ^ (-(100 : Int)) ≤ q) : (-126 : Int) ≤ ilog2 q := by
+  have hq : 0 < q := lt_of_lt_of_le (two_zpow_pos _) h
+  have := (ilog2_spec q hq).2
+  by_contra hc
+  have hlt : ilog2 q + 1 ≤ -100 := by omega
+  have h2 : (2 : Rat) ^ (ilog2 q + 1) ≤ (2 : Rat) ^ (-(100 : Int)) := zpow_le_zpow_right₀ (by norm_num) hlt
+  linarith
+
+/-- binary32 rounding of a positive number in [2^-100, 2^100]: finite, within relative 2^-24 -/
+theorem round32w (q : Rat) (h1 : (2 : Rat) ^ (-(100 : Int)) ≤ q) (h2 : q ≤ (2 : Rat) ^ (100 : Int)) :
+    F.round b32 q = .fin (rnd 24 (-126) q) ∧ |rnd 24 (-126) q - q| ≤ q * (1 / 16777216) := by
+  have hq : 0 < q := lt_of_lt_of_le (two_zpow_pos _) h1
+  have hn := normal_of_small q h1
+  have herr := rnd_rel 24 (-126) q hq hn
+  have hu : (2 : Rat) ^ (-((24 : Nat) : Int)) = 1 / 16777216 := by norm_num
+  rw [hu] at herr
+  have habs := abs_le.mp herr
+  refine ⟨?_, herr⟩
+  have hpos : 0 ≤ rnd 24 (-126) q := by nlinarith [habs.1]
+  have hlt : rnd 24 (-126) q < (2 : Rat) ^ ((127 : Int) + 1) := by
+    have : (2 : Rat) ^ (100 : Int) * 2 ≤ (2 : Rat) ^ ((127 : Int) + 1) := by norm_num
+    have : rnd 24 (-126) q ≤ q + q * (1 / 16777216) := by linarith [habs.2]
+    have : q + q * (1 / 16777216) ≤ q * 2 := by nlinarith
+    linarith
+  exact round_fin b32 q hlt hpos
+
+theorem factor_value : F.ofBits32 Gen.SX127x_FREQ_ERROR_FACTOR_bits = .fin (8796093 / 16777216) := by
+  unfold F.ofBits32
+  have : (Gen.SX127x_FREQ_ERROR_FACTOR_bits : UInt32).toNat = 1057372093 := by decide
+  simp only [this]
+  norm_num
+
+
+
+theorem toSInt_pos' (P : Rat) (h1 : 0 < P) (h2 : P < 2147483648) : F.toSInt 32 (.fin P) = some P.floor := by
+  unfold F.toSInt F.truncQ
+  simp only
+  rw [if_neg (not_lt.mpr (le_of_lt h1))]
+  have hf0 : 0 ≤ P.floor := by rw [rfloor_eq]; exact Int.floor_nonneg.mpr (le_of_lt h1)
+  have hf1 : P.floor < 2147483648 := by
+    have : (P.floor : Rat) ≤ P := Rat.floor_le P
+    have : (P.floor : Rat) < 2147483648 := by linarith
+    exact_mod_cast this
+  rw [if_pos ⟨by norm_num; omega, by norm_num; omega⟩]
+
+theorem toSInt_neg' (P : Rat) (h1 : 0 < P) (h2 : P < 2147483648) : F.toSInt 32 (.fin (-P)) = some (-P.floor) := by
+  unfold F.toSInt F.truncQ
+  simp only
+  rw [if_pos (by linarith : -P < 0), neg_neg]
+  have hf0 : 0 ≤ P.floor := by rw [rfloor_eq]; exact Int.floor_nonneg.mpr (le_of_lt h1)
+  have hf1 : P.floor < 2147483648 := by
+    have : (P.floor : Rat) ≤ P := Rat.floor_le P
+    have : (P.floor : Rat) < 2147483648 := by linarith
+    exact_mod_cast this
+  rw [if_pos ⟨by norm_num; omega, by norm_num; omega⟩]
+
+/-- the float expression `mag * FACTOR * bw / 500000.0f` and one more product with ±1, for one
+    bandwidth given as a numeral: four roundings, each within relative 2^-24 -/
+theorem lora_chain_num (m : Nat) (hm0 : 0 < m) (hm : m ≤ 524288) (bw : Rat) (hb1 : 7800 ≤ bw) (hb2 : bw ≤ 500000) :
+    ∃ P1 P2 P3 P4 : Rat,
+      F.round b32 ((m : Rat) * (8796093 / 16777216)) = .fin P1 ∧
+      F.round b32 (P1 * bw) = .fin P2 ∧
+      F.round b32 (P2 / 500000) = .fin P3 ∧
+      F.round b32 (1 * P3) = .fin P4 ∧ F.round b32 (-1 * P3) = .fin (-P4) ∧
+      0 < P4 ∧ P4 < 2147483648 ∧
+      |P1 - (m : Rat) * (8796093 / 16777216)| ≤ (m : Rat) * (8796093 / 16777216) * (1 / 16777216) ∧
+      |P2 - P1 * bw| ≤ P1 * bw * (1 / 16777216) ∧
+      |P3 - P2 / 500000| ≤ P2 / 500000 * (1 / 16777216) ∧
+      |P4 - P3| ≤ P3 * (1 / 16777216) ∧ 0 < P1 ∧ 0 < P2 ∧ 0 < P3 := by
+  have hm1 : (1 : Rat) ≤ (m : Rat) := by exact_mod_cast hm0
+  have hm2 : (m : Rat) ≤ 524288 := by exact_mod_cast hm
+  have lo : (2 : Rat) ^ (-(100 : Int)) ≤ 1 / 1000000000 := by norm_num
+  have hi : (1000000000000000 : Rat) ≤ (2 : Rat) ^ (100 : Int) := by norm_num
+  set x1 : Rat := (m : Rat) * (8796093 / 16777216) with hx1
+  have x1lo : (1 / 2 : Rat) ≤ x1 := by rw [hx1]; nlinarith
+  have x1hi : x1 ≤ 274878 := by rw [hx1]; nlinarith
+  obtain ⟨r1, e1⟩ := round32w x1 (le_trans lo (by linarith)) (le_trans (by linarith) hi)
+  set P1 := rnd 24 (-126) x1
+  have a1 := abs_le.mp e1
+  have P1lo : (1 / 4 : Rat) ≤ P1 := by nlinarith [a1.1]
+  have P1hi : P1 ≤ 274879 := by nlinarith [a1.2]
+  set x2 : Rat := P1 * bw with hx2
+  have x2lo : (1000 : Rat) ≤ x2 := by rw [hx2]; nlinarith
+  have x2hi : x2 ≤ 137439500000 := by rw [hx2]; nlinarith
+  obtain ⟨r2, e2⟩ := round32w x2 (le_trans lo (by linarith)) (le_trans (by linarith) hi)
+  set P2 := rnd 24 (-126) x2
+  have a2 := abs_le.mp e2
+  have P2lo : (999 : Rat) ≤ P2 := by nlinarith [a2.1]
+  have P2hi : P2 ≤ 137439600000 := by nlinarith [a2.2]
+  set x3 : Rat := P2 / 500000 with hx3
+  have x3lo : (1 / 1000 : Rat) ≤ x3 := by rw [hx3]; rw [le_div_iff₀ (by norm_num)]; linarith
+  have x3hi : x3 ≤ 274880 := by rw [hx3]; rw [div_le_iff₀ (by norm_num)]; linarith
+  obtain ⟨r3, e3⟩ := round32w x3 (le_trans lo (by linarith)) (le_trans (by linarith) hi)
+  set P3 := rnd 24 (-126) x3
+  have a3 := abs_le.mp e3
+  have P3lo : (1 / 2000 : Rat) ≤ P3 := by nlinarith [a3.1]
+  have P3hi : P3 ≤ 274881 := by nlinarith [a3.2]
+  obtain ⟨r4, e4⟩ := round32w P3 (le_trans lo (by linarith)) (le_trans (by linarith) hi)
+  set P4 := rnd 24 (-126) P3
+  have a4 := abs_le.mp e4
+  have P4lo : (1 / 4000 : Rat) ≤ P4 := by nlinarith [a4.1]
+  have P4hi : P4 ≤ 274882 := by nlinarith [a4.2]
+  refine ⟨P1, P2, P3, P4, r1, r2, r3, by rw [one_mul]; exact r4, ?_, by linarith, by linarith, e1, e2, e3, e4, by linarith, by linarith, by linarith⟩
+  rw [show (-1 : Rat) * P3 = -P3 by ring]
+  exact round_neg_fin b32 P3 (by show P4 < (2 : Rat) ^ ((127 : Int) + 1); have : (274882 : Rat) < (2 : Rat) ^ ((127 : Int) + 1) := by norm_num
+                                 linarith) (by show 0 ≤ P4; linarith)
+
+
+/-- the ten LoRa bandwidths `sx127x_lora_get_bandwidth` can return -/
+def LoraBw (bw : Nat) : Prop :=
+  bw = 7800 ∨ bw = 10400 ∨ bw = 15600 ∨ bw = 20800 ∨ bw = 31250 ∨ bw = 41700 ∨ bw = 62500 ∨ bw = 125000 ∨ bw = 250000 ∨ bw = 500000
+
+theorem lora_chain_err (m : Nat) (hm0 : 0 < m) (hm : m ≤ 524288) (bw : Nat) (hbw : LoraBw bw) :
+    ∃ P1 P2 P3 P4 : Rat,
+      F.round b32 ((m : Rat) * (8796093 / 16777216)) = .fin P1 ∧
+      F.round b32 (P1 * (bw : Rat)) = .fin P2 ∧
+      F.round b32 (P2 / 500000) = .fin P3 ∧
+      F.round b32 (1 * P3) = .fin P4 ∧ F.round b32 (-1 * P3) = .fin (-P4) ∧
+      0 < P4 ∧ P4 < 2147483648 ∧
+      |P4 - (m : Rat) * (16777216 / 32000000) * (bw : Rat) / 500000| ≤ 1 / 8 := by
+  have hb : (7800 : Rat) ≤ (bw : Rat) ∧ (bw : Rat) ≤ 500000 := by
+    rcases hbw with h | h | h | h | h | h | h | h | h | h <;> subst h <;> norm_num
+  obtain ⟨P1, P2, P3, P4, r1, r2, r3, r4, r5, p4a, p4b, e1, e2, e3, e4, p1, p2, p3⟩ :=
+    lora_chain_num m hm0 hm (bw : Rat) hb.1 hb.2
+  refine ⟨P1, P2, P3, P4, r1, r2, r3, r4, r5, p4a, p4b, ?_⟩
+  have hm1 : (1 : Rat) ≤ (m : Rat) := by exact_mod_cast hm0
+  have hm2 : (m : Rat) ≤ 524288 := by exact_mod_cast hm
+  have a1 := abs_le.mp e1
+  have a2 := abs_le.mp e2
+  have a3 := abs_le.mp e3
+  have a4 := abs_le.mp e4
+  rw [abs_le]
+  rcases hbw with h | h | h | h | h | h | h | h | h | h <;> subst h <;> push_cast at * <;>
+    constructor <;> linarith [a1.1, a1.2, a2.1, a2.2, a3.1, a3.2, a4.1, a4.2]
+
+
+theorem and_80000 (n : Nat) (h : n < 1048576) : (n &&& 524288 ≠ 0) ↔ 524288 ≤ n := by
+  have : n &&& 524288 = (n.testBit 19).toNat * 2 ^ 19 := Nat.and_two_pow n 19
+  rw [this, Nat.testBit_eq_decide_div_mod_eq]
+  by_cases hb : n / 2 ^ 19 % 2 = 1
+  · simp [hb]; omega
+  · simp [hb]; omega
+
+theorem bit19 (raw : UInt32) (h : raw.toNat < 1048576) : (raw &&& 0x80000 ≠ 0) ↔ 524288 ≤ raw.toNat := by
+  rw [← and_80000 raw.toNat h]
+  have : (raw &&& 0x80000).toNat = raw.toNat &&& 524288 := by rw [UInt32.toNat_and]; rfl
+  rw [← this]
+  constructor
+  · intro hne h0; exact hne (UInt32.toNat_inj.mp (by simpa using h0))
+  · intro hne h0; exact hne (by rw [h0]; rfl)
+
+theorem neg20 (raw : UInt32) (h : raw.toNat < 1048576) (hn : 524288 ≤ raw.toNat) :
+    (((~~~ raw) + 1) &&& 0xFFFFF).toNat = 1048576 - raw.toNat := by
+  rw [UInt32.toNat_and, UInt32.toNat_add, UInt32.toNat_not]
+  have : (0xFFFFF : UInt32).toNat = 2 ^ 20 - 1 := by decide
+  rw [this, Nat.and_two_pow_sub_one_eq_mod]
+  have : (1 : UInt32).toNat = 1 := rfl
+  rw [this]
+  have hs : UInt32.size = 4294967296 := rfl
+  omega
+
+/-- the 20-bit two's-complement reading of RegFei -/
+def s20 (n : Nat) : Int := if 524288 ≤ n then (n : Int) - 1048576 else n
+
+theorem f32_500000 : f32 500000 = .fin 500000 := by
+  have := ofNat32_exact 500000 (by norm_num) (by norm_num)
+  unfold F.ofNat at this
+  unfold f32
+  simpa using this
+
+theorem round_zero : F.round b32 0 = .fin 0 := by
+  unfold F.round rnd
+  simp only [↓reduceIte, lt_self_iff_false]
+  rw [if_neg (not_le.mpr (two_zpow_pos _))]
+
+theorem quarter_pos (m : Nat) (hm0 : 0 < m) (hm1 : m < 2 ^ 24) :
+    rnd 24 (-126) ((m : Rat) / 4) = (m : Rat) / 4 ∧ (m : Rat) / 4 < (2 : Rat) ^ ((127 : Int) + 1) ∧ (0 : Rat) ≤ (m : Rat) / 4 := by
+  have hq : ((m : Rat) / 4) = (m : Rat) * (2 : Rat) ^ (-(2 : Int)) := by norm_num; ring
+  have hmq : (1 : Rat) ≤ (m : Rat) := by exact_mod_cast hm0
+  have hlo : (2 : Rat) ^ (-(100 : Int)) ≤ 1 / 4 := by norm_num
+  have hsmall : (2 : Rat) ^ (-(100 : Int)) ≤ (m : Rat) * (2 : Rat) ^ (-(2 : Int)) := by rw [← hq]; linarith
+  refine ⟨?_, ?_, by positivity⟩
+  · rw [hq]
+    exact rnd_dyadic_exact 24 (by norm_num) (-126) m hm0 hm1 (-2) (normal_of_small _ hsmall)
+  · have h1 : (m : Rat) < 16777216 := by exact_mod_cast hm1
+    have h2 : (16777216 : Rat) < (2 : Rat) ^ ((127 : Int) + 1) := by norm_num
+    linarith
+
+/-- a quarter-integer of magnitude below 2^22 is a binary32 value -/
+theorem round_quarter (n : Int) (hn : n.natAbs < 16777216) : F.round b32 ((n : Rat) / 4) = .fin ((n : Rat) / 4) := by
+  rcases lt_trichotomy n 0 with hneg | hz | hpos
+  · obtain ⟨m, hm⟩ : ∃ m : Nat, n = -(m : Int) := ⟨n.natAbs, by omega⟩
+    obtain ⟨hex, hb, hp⟩ := quarter_pos m (by omega) (by omega)
+    have := round_neg_fin b32 ((m : Rat) / 4) (by show rnd 24 (-126) _ < _; rw [hex]; exact hb) (by show 0 ≤ rnd 24 (-126) _; rw [hex]; exact hp)
+    have e : ((n : Rat) / 4) = -((m : Rat) / 4) := by rw [hm]; push_cast; ring
+    rw [e, this]
+    show F.fin (-rnd 24 (-126) _) = _
+    rw [hex]
+  · rw [hz]; norm_num; exact round_zero
+  · obtain ⟨m, hm⟩ : ∃ m : Nat, n = (m : Int) := ⟨n.natAbs, by omega⟩
+    obtain ⟨hex, hb, hp⟩ := quarter_pos m (by omega) (by omega)
+    have := round_fin b32 ((m : Rat) / 4) (by show rnd 24 (-126) _ < _; rw [hex]; exact hb) (by show 0 ≤ rnd 24 (-126) _; rw [hex]; exact hp)
+    have e : ((n : Rat) / 4) = ((m : Rat) / 4) := by rw [hm]; push_cast; rfl
+    rw [e, this]
+    show F.fin (rnd 24 (-126) _) = _
+    rw [hex]
+
+
+/-- the packet-strength sum of the driver: an integer plus a quarter-integer, added in single
+    precision and truncated to `int16_t` — exact -/
+theorem rssiRefine_exact (r : Int) (hr1 : -1000 ≤ r) (hr2 : r ≤ 1000) (k : Int) (hk1 : -128 ≤ k) (hk2 : k ≤ 127) :
+    rssiRefine r (.fin ((k : Rat) / 4)) = some (F.truncQ ((r : Rat) + (k : Rat) / 4)) := by
+  unfold rssiRefine
+  have hr : F.ofInt b32 r = .fin (r : Rat) := by
+    unfold F.ofInt
+    have := round_quarter (4 * r) (by omega)
+    have e : (((4 * r : Int) : Rat) / 4) = (r : Rat) := by push_cast; ring
+    rw [e] at this
+    exact this
+  rw [hr]
+  show F.toSInt 16 (F.round b32 ((r : Rat) + (k : Rat) / 4)) = _
+  have e : (r : Rat) + (k : Rat) / 4 = ((4 * r + k : Int) : Rat) / 4 := by push_cast; ring
+  rw [e, round_quarter (4 * r + k) (by omega)]
+  unfold F.toSInt
+  simp only
+  have hq1 : (-1100 : Rat) ≤ ((4 * r + k : Int) : Rat) / 4 := by
+    have : ((-4400 : Int) : Rat) ≤ ((4 * r + k : Int) : Rat) := by exact_mod_cast (by omega : (-4400 : Int) ≤ 4 * r + k)
+    rw [le_div_iff₀ (by norm_num)]; push_cast at this ⊢; linarith
+  have hq2 : ((4 * r + k : Int) : Rat) / 4 ≤ 1100 := by
+    have : ((4 * r + k : Int) : Rat) ≤ ((4400 : Int) : Rat) := by exact_mod_cast (by omega : 4 * r + k ≤ (4400 : Int))
+    rw [div_le_iff₀ (by norm_num)]; push_cast at this ⊢; linarith
+  set q : Rat := ((4 * r + k : Int) : Rat) / 4 with hq
+  have ht : -1101 ≤ F.truncQ q ∧ F.truncQ q ≤ 1101 := by
+    unfold F.truncQ
+    split
+    · have h1 := Rat.floor_le (-q)
+      have h2 := Rat.lt_floor_add_one (-q)
+      constructor
+      · have : ((-q).floor : Rat) ≤ 1100 := by linarith
+        have : (-q).floor ≤ 1100 := by exact_mod_cast this
+        omega
+      · have : (-1101 : Rat) < ((-q).floor : Rat) := by push_cast at h2; linarith
+        have : -1101 < (-q).floor := by exact_mod_cast this
+        omega
+    · have h1 := Rat.floor_le q
+      have h2 := Rat.lt_floor_add_one q
+      constructor
+      · have : (-1101 : Rat) < (q.floor : Rat) := by push_cast at h2; linarith
+        have : -1101 < q.floor := by exact_mod_cast this
+        omega
+      · have : (q.floor : Rat) ≤ 1100 := by linarith
+        have : q.floor ≤ 1100 := by exact_mod_cast this
+        omega
+  have h16 : ((2 : Int) ^ (16 - 1)) = 32768 := by norm_num
+  rw [if_pos ⟨by rw [h16]; omega, by rw [h16]; omega⟩]
+
+
+theorem F.eq_fin {a : F} {y : Rat} (h : F.eq a (.fin y) = true) : a = .fin y := by
+  cases a with
+  | nan => simp [F.eq] at h
+  | inf s => simp [F.eq] at h
+  | fin x => simp [F.eq] at h; rw [h]
+
 end Sx
